@@ -199,8 +199,9 @@ var (
 	propNames   = []string{"v.a", "v.b", "ver.c", "dep.d.version", "e.version", "vf"}
 
 	jdkSpecs = []string{"11", "11.0", "11.0.8", "1.8", "17", "12", "10", "11", "1.8", "11.0", "11.0.9", "1.1", "[1.8,)", "[11,12)", "[1.8,11)", "(,11]", "[11.0.8,)", "[12,)", "(11,)", "(1.8,17]", "[9,11.0.8]"}
-	// Shapes of open findings, generated rarely.
+	// Plain versions that are no component-wise prefix, and negated versions.
 	jdkRare = []string{"11.0.1", "1", "!1.8", "!11", "!17", "11.0.7", "!11.0.8"}
+	// Shape of an open finding (family names plexus does not know), generated rarely.
 	osRare  = []OS{{Family: "linux"}, {Family: "!linux"}, {Family: "Linux", Arch: "amd64"}}
 	osSpecs = []OS{
 		{Name: "linux"}, {Name: "Linux"}, {Name: "windows"}, {Name: "!windows"}, {Name: "!linux"},
@@ -284,8 +285,12 @@ func Generate(rng *rand.Rand, opt Opts) *Lineage {
 			g.fillDeps(b, nil, true)
 		}
 	}
-	if !opt.NoDupInFile && rng.Intn(8) == 0 {
-		g.addDuplicate(root, boms)
+	if !opt.NoDupInFile && rng.Intn(5) == 0 {
+		g.addDuplicate(root, boms, false)
+	}
+	if !opt.NoDupInFile && rng.Intn(16) == 0 {
+		// Duplicates in a managed list are the shape of an open finding: rarer.
+		g.addDuplicate(root, boms, true)
 	}
 	for t := range g.feat {
 		g.l.Feat = append(g.l.Feat, t)
@@ -348,8 +353,7 @@ func (g *genState) newChain(group, name string, depth int, bom bool) *chain {
 // (they are evaluated against the leaf's <parent>).
 func (g *genState) builtin(c *chain) string {
 	bs := []string{"${project.version}", "${project.version}", "${project.groupId}", "${pom.version}", "${version}", "${pom.groupId}", "${groupId}"}
-	// Inside a BOM chain parent.* is generated rarely: it is the shape of an open finding.
-	if c.hasPar && (!c.bom || g.rng.Intn(12) == 0) {
+	if c.hasPar {
 		if c.bom {
 			g.tag("bom:parent-builtin")
 		}
@@ -408,7 +412,7 @@ func (g *genState) newProfile(c *chain, fileIdx int) *Profile {
 		}
 		g.tag("profile:combined")
 	}
-	if pr.JDK != "" && rng.Intn(40) == 0 {
+	if pr.JDK != "" && rng.Intn(8) == 0 {
 		pr.JDK = pick(rng, jdkRare)
 		g.tag("profile:jdk-rare")
 	}
@@ -637,7 +641,7 @@ func (g *genState) fillDeps(c *chain, managed []Dep, bom bool) {
 
 // addDuplicate repeats one declaration inside the list that already holds it,
 // with different content (the "duplicate declarations" of the quantifier).
-func (g *genState) addDuplicate(root *chain, boms []*chain) {
+func (g *genState) addDuplicate(root *chain, boms []*chain, managed bool) {
 	rng := g.rng
 	c := root
 	if len(boms) > 0 && rng.Intn(4) == 0 {
@@ -654,10 +658,17 @@ func (g *genState) addDuplicate(root *chain, boms []*chain) {
 		}
 		return d
 	}
-	if len(p.Deps) > 0 && (rng.Intn(2) == 0 || len(p.Mgmt) == 0) {
-		d := mutate(p.Deps[rng.Intn(len(p.Deps))])
-		p.Deps = append(p.Deps, d)
-		g.tag("dup-in-file:deps")
+	if !managed {
+		if c.bom {
+			f = root.files[rng.Intn(len(root.files))]
+			p = &g.l.Poms[f]
+			c = root
+		}
+		if len(p.Deps) > 0 {
+			d := mutate(p.Deps[rng.Intn(len(p.Deps))])
+			p.Deps = append(p.Deps, d)
+			g.tag("dup-in-file:deps")
+		}
 		return
 	}
 	var cand []Dep
